@@ -1,4 +1,5 @@
-"""C15: VMSA translation -- short-descriptor table walks give the right physical address, attributes or fault."""
+"""C15: VMSA translation -- short- and long-descriptor table walks give the right physical address, attributes or
+fault."""
 import z3
 
 from spec import pseudo as P
@@ -82,10 +83,14 @@ EAE_ = 31
 
 
 def mk_ld(ispriv, iswrite, start=None, final=None, use1=None, sec=True, ee_sym=False, mair='sym', rgn_sym=False,
-          t0sz=None, t1sz=None):
+          t0sz=None, t1sz=None, focus=None, attrindx=None):
     """long-descriptor stage-1 walk (TTBCR.EAE = 1, LPAE configuration, not Hyp, no stage 2).
     start: level the walk starts at (1 / 2, case split on TxSZ<2:1>); final: level of the final descriptor (case split
-    over the descriptor types read); use1: TTBR1 / TTBR0 selected"""
+    over the descriptor types read); use1: TTBR1 / TTBR0 selected; t0sz / t1sz: TTBCR.T0SZ / T1SZ pinned (the shift
+    amounts of the walk become numerals); focus: which hierarchical-control bits of the TABLE descriptors passed
+    through are symbolic -- 'ap' (APTable), 'ns' (NSTable), 'xn' (XNTable, PXNTable) -- the others being 0 (the
+    walk forks on each of the five bits at every table level; None = all symbolic); attrindx: AttrIndx of the final
+    descriptor pinned"""
     def fn(env):
         from armulator.armv6.arm_exceptions import DataAbortException
         from armulator.armv6.memory_attributes import MemType
@@ -114,10 +119,19 @@ def mk_ld(ispriv, iswrite, start=None, final=None, use1=None, sec=True, ee_sym=F
         if start is not None:
             env.assume(o['start2'] == (start == 2))
         if final is not None:
-            env.assume(z3.Or(o['f_tr'], o['final'] == final))
-            env.assume(z3.Implies(o['f_tr'], o['level'] == final))
+            fl = z3.If(o['start2'], P.BV(2, 2), P.BV(1, 2)) if final == 'start' else P.BV(final, 2)
+            env.assume(z3.Or(o['f_tr'], o['final'] == fl))
+            env.assume(z3.Implies(o['f_tr'], o['level'] == fl))
         if use1 is not None:
             env.assume(o['use1'] == use1)
+        if focus is not None:
+            keep = {'ap': (62, 61), 'ns': (63,), 'xn': (60, 59)}[focus]
+            for is_tab, d in o['tables']:
+                for b in (63, 62, 61, 60, 59):
+                    if b not in keep:
+                        env.assume(z3.Implies(is_tab, z3.Not(P.bit(d, b))))
+        if attrindx is not None:
+            env.assume(z3.Or(o['f_tr'], o['attrindx'] == attrindx))
         a = o['attrs']
         env.assume(z3.Implies(z3.Not(o['fault']), a['sure']))
         exc = None
@@ -214,25 +228,98 @@ def units(tier, seed=0):
                                dict(ispriv=ispriv, iswrite=iswrite, n_fixed=1, remap=INJECTIVE, sec=False,
                                     ee_sym=False, ttbr_mask=0xFFFFFF80), max_paths=500000, max_seconds=5000, weight=10)
     us.append(UnitSpec('mmu_off', 'vf.c15', 'mk_off', {}))
+    us += ld_units(tier)
+    return us
+
+
+# MAIR0/1 with eight pairwise distinct, fully specified attribute encodings (Strongly-ordered, Device, Normal
+# non-cacheable, write-through / write-back with distinct allocation hints): a wrong AttrIndx extraction or a wrong
+# MAIR byte selection changes the observed attributes
+MAIR_INJECTIVE = [0xFF440400, 0xA9C4C8BB]
+PW = [(True, False), (False, True), (False, False), (True, True)]
+
+
+def ld_units(tier):
+    """long-descriptor stage-1 walks (LPAE configuration).  Every unit pins TTBCR.T0SZ/T1SZ and a shape of the walk
+    (level of the final descriptor, which table-control bits are symbolic) -- see mk_ld"""
+    us = []
+
+    def add(tag, pw, **kw):
+        ispriv, iswrite = PW[pw % 4]
+        name = 'ld_walk/%s/%s/%s' % (tag, 'priv' if ispriv else 'user', 'w' if iswrite else 'r')
+        us.append(UnitSpec(name, 'vf.c15', 'mk_ld', dict(kw, ispriv=ispriv, iswrite=iswrite), max_paths=500000,
+                           max_seconds=3000, weight=8))
+    if tier == 'quick':
+        add('T0=0,T1=0/final=start/mair-sym', 0, t0sz=0, t1sz=0, final='start')
+        add('T0=1,T1=2/final=2/ap-table', 1, t0sz=1, t1sz=2, final=2, focus='ap', mair=MAIR_INJECTIVE)
+        add('T0=2,T1=3/final=3/ap-table/attr5', 2, t0sz=2, t1sz=3, final=3, focus='ap', attrindx=5,
+            mair=MAIR_INJECTIVE)
+        add('T0=0,T1=5/final=2/ns-table', 3, t0sz=0, t1sz=5, final=2, focus='ns', mair=MAIR_INJECTIVE)
+        add('T0=3,T1=0/final=3/xn-table/attr1', 0, t0sz=3, t1sz=0, final=3, focus='xn', attrindx=1,
+            mair=MAIR_INJECTIVE)
+        add('T0=7,T1=7/final=start', 1, t0sz=7, t1sz=7, final='start', mair=MAIR_INJECTIVE)
+        add('T0=4,T1=4/final=3/ns-table/attr2', 3, t0sz=4, t1sz=4, final=3, focus='ns', attrindx=2,
+            mair=MAIR_INJECTIVE)
+        add('T0=0,T1=1/final=1/ap-table/attr7', 2, t0sz=0, t1sz=1, final=1, attrindx=7, mair=MAIR_INJECTIVE)
+        return us
+    i = 0
+    for t0 in range(8):
+        for t1 in range(8):
+            # every pair of region sizes: walks that end at their first level (block at level 1 / 2)
+            add('T0=%d,T1=%d/final=start' % (t0, t1), i, t0sz=t0, t1sz=t1, final='start',
+                mair=('sym' if (t0 + t1) % 4 == 0 else MAIR_INJECTIVE))
+            i += 1
+    deep = [(0, 0), (1, 2), (2, 3), (0, 5), (3, 0), (7, 7), (4, 4), (1, 0)]
+    foci = ['ap', 'ns', 'xn']
+    for j, (t0, t1) in enumerate(deep):
+        for pw in range(4):
+            f = foci[(j + pw) % 3]
+            add('T0=%d,T1=%d/final=2/%s-table' % (t0, t1, f), pw, t0sz=t0, t1sz=t1, final=2, focus=f,
+                mair=MAIR_INJECTIVE)
+            f = foci[(j + pw + 1) % 3]
+            k = (3 * j + pw) % 8
+            add('T0=%d,T1=%d/final=3/%s-table/attr%d' % (t0, t1, f, k), pw, t0sz=t0, t1sz=t1, final=3, focus=f,
+                attrindx=k, mair=MAIR_INJECTIVE)
+    for pw in range(4):
+        add('T0=0,T1=3/final=start/ee-sym', pw, t0sz=0, t1sz=3, final='start', ee_sym=True, mair=MAIR_INJECTIVE)
+        add('T0=2,T1=0/final=start/nosec', pw, t0sz=2, t1sz=0, final='start', sec=False, mair=MAIR_INJECTIVE)
+    add('T0=1,T1=1/final=start/walk-attrs-sym', 0, t0sz=1, t1sz=1, final='start', rgn_sym=True, attrindx=3,
+        mair=MAIR_INJECTIVE)
     return us
 
 
 META = {
     'explanation': 'Bounded symbolic verification of the real ArmV6.translate_address_v / translation_table_walk_sd / '
-                   'check_domain / check_permission / data_abort / encode_sdfsr / remapped_tex_decode / fcse_translate: '
-                   'the page tables ARE the symbolic memory array (every descriptor word at every address arbitrary), '
-                   'TTBR0/1, TTBCR.{N,PD0,PD1}, DACR, SCTLR.{AFE,EE}, FCSE PID, PRRR/NMRR and the virtual address are '
-                   'symbolic; privilege and direction case-split. Output address (40 bit), NS, memory type/attributes, '
-                   'or the fault with DFSR.{FS,domain,WnR} and DFAR, are compared with the B3 pseudocode oracle.',
+                   'translation_table_walk_ld / check_domain / check_permission / data_abort / encode_sdfsr / '
+                   'remapped_tex_decode / mair_decode / fcse_translate: the page tables ARE the symbolic memory array '
+                   '(every descriptor word at every address arbitrary). Short-descriptor format: TTBR0/1, '
+                   'TTBCR.{N,PD0,PD1}, DACR, SCTLR.{AFE,EE}, FCSE PID, PRRR/NMRR and the virtual address symbolic; '
+                   'privilege and direction case-split; output address (40 bit), NS, memory type/attributes, or the '
+                   'fault with DFSR.{FS,domain,WnR} and DFAR, compared with the B3 pseudocode oracle. '
+                   'Long-descriptor format (ld_walk units, LPAE configuration, TTBCR.EAE = 1): TTBR0/TTBR1 (40 bit), '
+                   'TTBCR.{EPD0,EPD1}, MAIR0/1, the virtual address and every 64-bit descriptor symbolic, T0SZ/T1SZ '
+                   'enumerated; TTBR selection, start level, table / block / page descriptors at levels 1-3, '
+                   'hierarchical APTable/NSTable/XNTable/PXNTable, access flag, AP[2:1], output address (40 bit), NS, '
+                   'MAIR attribute decode and shareability are compared with the B3.19.6 TranslationTableWalkLD oracle; '
+                   'a translation succeeds exactly when the oracle reports no fault.',
     'bounds': ['short-descriptor format, stage 1, SCTLR.TRE = 1, hardware access-flag update off',
-               'quick: TTBCR.N in {0,2}, SCTLR.EE = 0, one injective PRRR/NMRR setting, TTBR attribute bits [6:0] fixed; thorough: N in {0,1,2,7} with EE symbolic, PRRR/NMRR fully symbolic for N = 0, and a no-security-extension configuration'],
+               'quick: TTBCR.N in {0,2}, SCTLR.EE = 0, one injective PRRR/NMRR setting, TTBR attribute bits [6:0] fixed; thorough: N in {0,1,2,7} with EE symbolic, PRRR/NMRR fully symbolic for N = 0, and a no-security-extension configuration',
+               'long-descriptor format: stage 1 at PL1&0 only (not Hyp, no stage 2), FCSE PID = 0; each unit pins '
+               'T0SZ/T1SZ (quick: 8 pairs; thorough: all 64 pairs for walks ending at their first level, 8 pairs for '
+               'deeper walks), the level of the final descriptor, and which of the table-descriptor control bits '
+               '(APTable / NSTable / XNTable+PXNTable) are symbolic while the others are 0; MAIR symbolic in the '
+               'first-level units with T0SZ+T1SZ a multiple of 4, else one injective setting with AttrIndx symbolic or pinned; '
+               'MAIR encodings with an IMPLEMENTATION DEFINED / transient / UNPREDICTABLE meaning excluded'],
     'outside': ['SCTLR.TRE = 0 (remap_regs_have_reset_values is a NotImplementedError stub)', 'hardware access flag '
-                'update (mem.set_bits stub)', 'long-descriptor format and stage 2 (LPAE / virtualization): every fault '
-                'path there ends in the tlb_lookup_came_from_cache_maintenance stub', 'reserved TRn=11 / region 6'],
+                'update (mem.set_bits stub)', 'long-descriptor FAULT REPORTS: every long-descriptor fault ends in the '
+                'tlb_lookup_came_from_cache_maintenance NotImplementedError stub, so for faulting walks only "the '
+                'architecture faults here, and nothing else changed" is claimed, not DFSR/DFAR', 'stage 2, Hyp-mode '
+                'stage 1, short-descriptor faults under LPAE (same stub)', 'reserved TRn=11 / region 6',
+                'physical memory above 4 GB (the hub model has no controller there: descriptor fetches read zero)'],
     'stubs': stubs.STUBS_DOC,
-    'trusted_base': ['z3', 'symx engine', 'spec/vmsa.py transcription of DDI 0406C B3.19'],
+    'trusted_base': ['z3', 'symx engine', 'spec/vmsa.py transcription of DDI 0406C B3.19 / B3.6 / B4.1.104'],
     'assumptions': ['valid machine state; domain access 10 and AP encodings the architecture calls UNPREDICTABLE '
-                    'excluded'],
+                    'excluded; TTBRn bits below the table alignment zero (UNPREDICTABLE otherwise)'],
 }
 
 
